@@ -13,17 +13,17 @@ ENTRY = dict(
                 "the activation's start-up steps (monitor subscribed before the inner start — Props/C12Current) the whole "
                 "C02 statement holds for it; were the order reversed, the kernel-checked missed-start schedule applies and "
                 "the parent waits for ever. Data objects are written and read across the sub-process boundary (D34 found so)."),
-    level_note=("STEP CONTRACT of the sub-process node, for every program, state and configuration (Props/C12Steps): a token reaching an idle sub-process node creates exactly one fresh token per inner start event, in document order (enter_sub_tokens), is held without requesting anything (enter_sub_holds_parent), a second concurrent activation is flagged, never merged; a parent token is released only when its scope holds no live token (settle_holds_parent, return_needs_empty_scope) and leaves the active list in the same step, so once per activation (return_sub_once). RUN LEVEL: for every program without inclusive gateways — sub-processes nested to any depth, inside parallel branches, re-entered in loops — the engine model at the configuration extracted from today's /repo IS the token game (sub_programs_are_token_game, from Props/C01Fragment). ANY DEPTH (Props/C12Nest): descend / ascend / nest_run by induction on the nesting depth for every program of the nest shape (d >= 1 sub-process levels around a chain of K >= 1 tasks, one task behind; also induction along the chain: inner_step / inner_chain), inhabited at every depth and length (nestProc d K), nest_as_inline (wrapped = inlined against the chain theorem), nest_run_current at the extracted configuration; SCOPE-BLINDNESS (Props/C12Blind): arrive at any node that is not a sub-process node, selectFlows and the reply to an answer are invariant under rewriting every scope (arrive_reparent, answerPrep_reparent) — inner activities are handled as they would be inline. Still partial (C12_partial): no unbounded wrapped = inlined theorem over block contexts. Modelled: the inner tracer / relay / completion "
+    level_note=("STEP CONTRACT of the sub-process node, for every program, state and configuration (Props/C12Steps): a token reaching an idle sub-process node creates exactly one fresh token per inner start event, in document order (enter_sub_tokens), is held without requesting anything (enter_sub_holds_parent), a second concurrent activation is flagged, never merged; a parent token is released only when its scope holds no live token (settle_holds_parent, return_needs_empty_scope) and leaves the active list in the same step, so once per activation (return_sub_once). RUN LEVEL: for every program without inclusive gateways — sub-processes nested to any depth, inside parallel branches, re-entered in loops — the engine model at the configuration extracted from today's /repo IS the token game (sub_programs_are_token_game, from Props/C01Fragment). ANY DEPTH (Props/C12Nest): descend / ascend / nest_run by induction on the nesting depth for every program of the nest shape (d >= 1 sub-process levels around a chain of K >= 1 tasks, one task behind; also induction along the chain: inner_step / inner_chain), inhabited at every depth and length (nestProc d K), nest_as_inline (wrapped = inlined against the chain theorem), nest_run_current at the extracted configuration; RE-ENTRY IN A LOOP (Props/C12Loop): for every bound N, every round and whatever the answers carry — loop_step (one round from any state at round j: the sub-process returns once and is entered again, or the instance ends), loop_rounds, loop_run (k + 1 requests of the inner task for k rounds that stay in the loop), loop_run_current at the extracted configuration; SCOPE-BLINDNESS (Props/C12Blind): arrive at any node that is not a sub-process node, selectFlows and the reply to an answer are invariant under rewriting every scope (arrive_reparent, answerPrep_reparent) — inner activities are handled as they would be inline. Still partial (C12_partial): no unbounded wrapped = inlined theorem over block contexts. Modelled: the inner tracer / relay / completion "
                 "monitor as 'parent resumes when the inner scope is empty'; the race between the inner start-up and the relay's "
                 "subscription (schedule points subprocess.run.before_subscribe / subprocess.monitor.before_subscribe) is forced "
                 "in a third of the paired runs (the monitor / relay held for 20 ms at their subscribe points). Two "
                 "concurrent activations of one sub-process node are outside the model (such runs are skipped and counted)."),
     technique="Lean 4 proof (engine-model lemma + kernel-checked witnesses) + paired wrapped/inlined lock-step replay",
-    lean_modules=["Bpmn.Props.C12", "Bpmn.Props.C12Current", "Bpmn.Props.EngineCurrent", "Bpmn.Props.C12Steps", "Bpmn.Props.C12Nest", "Bpmn.Props.C12Blind"],
+    lean_modules=["Bpmn.Props.C12", "Bpmn.Props.C12Current", "Bpmn.Props.EngineCurrent", "Bpmn.Props.C12Steps", "Bpmn.Props.C12Nest", "Bpmn.Props.C12Blind", "Bpmn.Props.C12Loop"],
     harness_files=["c03.go"],
-    families=["c12", "c12fork", "c12nest"],
+    families=["c12", "c12fork", "c12nest", "c12loop"],
     facts_from=["Engine", "C12", "C02"],
-    rule=("c12nest: the program family of Props/C12Nest (nestProc d, same element names) run by the real engine at depth 1..10 (thorough: 16, 24, 32 too), compared step by step with the model's run of nestProc d at the extracted configuration; c12fork: a sub-process whose content forks WITHOUT joining (2..3 inner tasks behind a parallel gateway or an activity with several outgoing flows, running into one shared inner end event or one each; also nested in another sub-process), every order of answering the inner tasks: the task behind the sub-process is requested once, after the last inner answer; pairs of runs of one seeded block-structured program (tasks, seq, exclusive, parallel, loops, sub blocks; <= 12 "
+    rule=("c12loop: the program of Props/C12Loop (loopProc N, same element names; a sub-process entered again and again while c < N) run by the real engine for N in 1..6 (thorough 1..24) with rising values, a value that leaves at once and values that stay low, compared round by round with the run of loopProc N in the model at the extracted configuration; c12nest: the program family of Props/C12Nest (nestProc d, same element names) run by the real engine at depth 1..10 (thorough: 16, 24, 32 too), compared step by step with the model's run of nestProc d at the extracted configuration; c12fork: a sub-process whose content forks WITHOUT joining (2..3 inner tasks behind a parallel gateway or an activity with several outgoing flows, running into one shared inner end event or one each; also nested in another sub-process), every order of answering the inner tasks: the task behind the sub-process is requested once, after the last inner answer; pairs of runs of one seeded block-structured program (tasks, seq, exclusive, parallel, loops, sub blocks; <= 12 "
           "nodes quick, <= 20 thorough; each sub block wrapped in 1..3 nested sub-processes vs inlined), identical variables "
           "and answer order (pending requests sorted by name, seeded choice); non-trivial = the program contains a "
           "sub-process and both runs were judged without finding; distinct by program and history"),
